@@ -112,6 +112,7 @@ InitS ==
     caller |-> [phase |-> "idle", op |-> ""],
     blocking |-> FALSE,     \* _blocking_event.is_set()
     uids |-> 0,
+    lateRet |-> "",         \* an abort/stop/halt call from another thread that is itself waiting for the run to end
     recIntr |-> FALSE,      \* RE.record_interruptions (set before the call)
     planRet |-> FALSE ]     \* the plan ran to completion (StopIteration out of the last generator)
 
@@ -200,7 +201,7 @@ Call(p0, ri) ==
                     !.groups = [g \in {} |-> {}],
                     !.gens = <<EnvGen(p0)>>, !.resps = <<Val(None)>>,
                     !.hasTask = FALSE, !.taskRes = "none", !.taskExc = None, !.exitExc = None, !.planRet = FALSE,
-                    !.permit = TRUE, !.blocking = FALSE, !.cancel = FALSE, !.stashed = None,
+                    !.permit = TRUE, !.blocking = FALSE, !.cancel = FALSE, !.stashed = None, !.lateRet = "",
                     !.pc = "start", !.recIntr = ri]
   /\ obs' = <<Ev("call", "run", IF ri THEN "ri" ELSE "", "", "", 0, 0)>>
 
@@ -307,6 +308,20 @@ ReqTerminate(op) ==
         /\ S' = [S EXCEPT !.interrupted = TRUE, !.exitStatus = IF op = "abort" THEN "abort" ELSE @,
                           !.st = TermState(op), !.cancel = (@ \/ S.hasTask)]
         /\ obs' = ReqObs(op, <<EvState(S.st, TermState(op))>>, IF S.hasTask THEN "ok" ELSE "exc:Err:AttributeError")
+
+\* RE.abort()/stop()/halt() from another thread while the engine is paused and the main thread is inside resume() (the
+\* permit is set, the run task has not woken up yet): __interrupter_helper sees 'paused', runs the coroutine (exception
+\* slot, no cancel) and then itself blocks in _resume_task until the run has ended -- its return is observed late
+ReqTerminatePaused(op) ==
+  /\ S.pc = "paused" /\ S.st = "paused" /\ S.caller.phase = "blocked" /\ S.permit /\ S.lateRet = ""
+  /\ op \in {"abort", "stop", "halt"}
+  /\ S' = [S EXCEPT !.interrupted = TRUE, !.st = TermState(op), !.exc = TermExc(op),
+                    !.exitStatus = IF op \in {"abort", "halt"} THEN "abort" ELSE @, !.lateRet = op]
+  /\ obs' = <<Ev("req", op, "", "", "", 0, 0), EvState("paused", TermState(op))>>
+LateReqRet ==
+  /\ S.lateRet # "" /\ S.pc = "done" /\ S.caller.phase = "idle"
+  /\ S' = [S EXCEPT !.lateRet = ""]
+  /\ obs' = <<Ev("reqret", S.lateRet, "ok", "", "", 0, 0)>>
 
 \* a status object finishes later (timer) and _status_object_completed lands: 2365-2392
 \* (pardon_failures is set in the finally block: after that failures are ignored)
